@@ -34,7 +34,7 @@ SHIPPED_MIDDLE = [("Buffer", "cobald.decorator.buffer.Buffer", {"window": 5}), (
                   ("Logger", "cobald.decorator.logger.Logger", {"name": "verif"}), ("Limiter", "cobald.decorator.limiter.Limiter", {"maximum": 10})]
 SHIPPED_HEAD = [("LinearController", "cobald.controller.linear.LinearController", {"interval": 1}),
                 ("RelativeSupplyController", "cobald.controller.relative_supply.RelativeSupplyController", {"interval": 1})]
-INVALID = ["yaml-syntax", "unknown-section", "missing-pipeline", "unknown-tag", "bad-keyword", "constructor-raises", "py-raises", "py-syntax",
+INVALID = ["section-plugin-raises", "logging-invalid", "yaml-syntax", "unknown-section", "missing-pipeline", "unknown-tag", "bad-keyword", "constructor-raises", "py-raises", "py-syntax",
            "ext-txt", "ext-json", "ext-none", "missing-file"]
 
 
@@ -73,7 +73,8 @@ def case(draw):
     kind = draw(st.sampled_from(["valid-sigint", "valid-sigint", "valid-fail", "invalid"]))
     pipes = [draw(pipeline("p0"))] if lang == "yaml" else [draw(pipeline(f"p{i}")) for i in range(draw(st.integers(1, 3)))]
     c = {"lang": lang, "kind": kind, "pipes": pipes, "logging": lang == "yaml" and draw(st.booleans()), "extra": lang == "yaml" and draw(st.booleans()),
-         "beats": draw(st.sampled_from([2, 5])), "flow": draw(st.booleans())}
+         "beats": draw(st.sampled_from([2, 5])), "flow": draw(st.booleans()), "plugin_section": lang == "yaml" and draw(st.booleans()),
+         "cli": draw(st.sampled_from([[], [], ["--log-level", "DEBUG"], ["--log-level", "warning"], ["--log-journal"]]))}
     services = [e for p in pipes for e in p if e["cls"] in SERVICES]
     if kind == "valid-fail":
         services = [e for e in services if e["cls"] not in ("FxGc", "FxSvcParked")]  # these never fail on request
@@ -118,7 +119,7 @@ def yaml_text(c, logfile):
         nodes[-1] = {"t": "FxPool", "n": {"m": [["name", {"s": "x"}], ["fail", {"s": True}]], "flow": True}}
     if inv != "missing-pipeline":
         sections.append(["pipeline", {"l": nodes, "flow": False}])
-    if c["logging"] or inv == "missing-pipeline":
+    if (c["logging"] or inv == "missing-pipeline") and inv != "logging-invalid":
         sections.append(["logging", {"m": [["version", {"s": 1}],
                                             ["handlers", {"m": [["file", {"m": [["class", {"s": "logging.FileHandler"}], ["filename", {"s": logfile}]], "flow": False}]], "flow": False}],
                                             ["root", {"m": [["level", {"s": "INFO"}], ["handlers", {"l": [{"s": "file"}], "flow": True}]], "flow": False}]], "flow": False}])
@@ -126,6 +127,12 @@ def yaml_text(c, logfile):
         sections.append(["__config_test", {"m": [["a", {"s": 1}]], "flow": True}])
     if inv == "unknown-section":
         sections.append(["surprise_section", {"m": [["a", {"s": 1}]], "flow": True}])
+    if inv == "section-plugin-raises":
+        sections.append(["verifsection", {"m": [["fail", {"s": True}]], "flow": True}])
+    elif c.get("plugin_section"):
+        sections.append(["verifsection", {"m": [["a", {"s": 1}]], "flow": True}])
+    if inv == "logging-invalid":
+        sections.append(["logging", {"m": [["version", {"s": 1}], ["handlers", {"m": [["h", {"m": [["class", {"s": "logging.NoSuchHandler"}]], "flow": True}]], "flow": False}]], "flow": False}])
     text = emit_document({"m": sections, "flow": False})
     if inv == "yaml-syntax":
         text += "  broken: [unclosed\n : :\n"
@@ -159,7 +166,7 @@ def run_case(c) -> Result:
     res = Result()
     inv = c.get("invalid")
     name = {"ext-txt": "config.txt", "ext-json": "config.json", "ext-none": "config"}.get(inv, "config.yaml" if c["lang"] == "yaml" else "config.py")
-    d = Daemon(name, "", create=False)
+    d = Daemon(name, "", extra_args=c.get("cli", []), create=False)
     try:
         text = yaml_text(c, d.log) if c["lang"] == "yaml" else py_text(c)
         if inv != "missing-file":
